@@ -82,7 +82,7 @@ func zzH10_rangeLen() {
 }
 
 // zzRangeSteps: structural choices for range steps and slice strides.
-var zzRangeSteps = []int64{1, 2, 3, -1, -3, 7, 1 << 31, -(1 << 31), 1 << 62, -1 << 63}
+var zzRangeSteps = []int64{1, 2, 3, -1, -3, 7, 1 << 31, -(1 << 31), 1 << 62, -(1 << 62)}
 
 // zzH10_rangeIndex: for symbolic start/stop (|v| < 2^B), a step from zzRangeSteps and every
 // index inside the range: the i-th element is start + i*step, lies inside the range, the
